@@ -768,6 +768,27 @@ def main():
         unknown = [p for p in probs if not ck.match_known("%s:%s:%s" % ("schedule-dependent-tie-order" if p.get("kind") == "tie-order" else "monitor", mode, p.get("line_name") or ""))]
         ck.oblige("monitor %s: OMP_NUM_THREADS in %s agree with 1 thread (%s)%s" % (mode, THREADS, "exact" if tol == 0 else "1e-12",
                   "" if len(unknown) == len(probs) else " except known findings"), not unknown, "%d problems" % len(probs))
+    # calling context: the same routines called from the master thread of an active parallel region (inner team of one thread)
+    if not ck.replay:
+        for mode, tol in (("det", 0), ("tol", 1e-12)):
+            rc1, ref, err1 = run_mode(exe, mode, seed, reps, 1)
+            cprob = []
+            for k in (2, 3):
+                rc, out, err = run_mode(exe, mode, seed, reps, k, {"C20_NESTED": str(k)})
+                if rc1 != 0 or rc != 0 or len(out) != len(ref):
+                    cprob.append({"threads": k, "what": "harness crashed/stopped inside a parallel region: rc=%s/%s, %d of %d lines; %s" % (rc1, rc, len(out), len(ref), err.strip()[-300:])}); continue
+                case = ""
+                for a, b in zip(ref, out):
+                    if a.startswith("case "): case = a
+                    evals += 1
+                    if not close(a, b, tol) and not only_index_differs(a, b, tol):
+                        cprob.append({"threads": k, "case": case, "line_name": a.split()[0], "what": "result of a call from inside an active parallel region differs from the plain single-threaded call",
+                                      "expected(1 thread)": a[:300], "observed": b[:300]}); break
+            for pr in cprob[:3]:
+                key = "context:%s:%s" % (mode, pr.get("line_name", "crash"))
+                ck.violation(key, {"mode": mode, "seed": seed, "problem": pr, "replay_cmd": "C20_NESTED=%s OMP_NUM_THREADS=%s %s %s %d %d" % (pr["threads"], pr["threads"], exe, mode, seed, reps)},
+                             "calling-context monitor (%s): %s" % (mode, json.dumps(pr)[:500]))
+            ck.oblige("monitor %s: called from the master thread of an active parallel region of 2 / 3 threads = plain single-threaded call (%s)" % (mode, "exact" if tol == 0 else "1e-12"), not cprob, "%d problems" % len(cprob))
     # corpus: (mode, seed, reps) triples that once exposed a defect are re-run on every run
     cfile = os.path.join(ROOT, "corpus", PID, "thread_monitor_seeds.txt")
     if os.path.exists(cfile) and not ck.replay:
